@@ -9,7 +9,7 @@ from ..session import Outcome
 from . import PropBase, steps_with_ids
 from .c06 import _first_non_plain
 
-FAULTS = ("exhaust", "stack", "clear", "clear_typing", "reclimit", "root_order", "reject_deep")
+FAULTS = ("exhaust", "stack", "clear", "clear_typing", "reclimit", "root_order", "reject_deep", "exhaust_scan")
 
 
 def _edge_wrap(edge_t, inner_v, inner_w):
@@ -157,6 +157,8 @@ class C07(PropBase):
             base = {"k": "ref", "m": "vw0", "n": group[ri]["n"]}
             if rng.random() < 0.15:
                 steps.append({"op": "build", "kind": rng.choice(["marshaller", "unmarshaller", "codec"]), "t": self._root_t(base, shape, kind), "mod": "vw0"})
+                if "exhaust_scan" in sw and rng.random() < 0.5:
+                    steps[-1]["scan"] = True  # the build is first cut short by RecursionError at every point it passes through
                 continue
             exhaust = "exhaust" in sw and rng.random() < (0.5 if burst else 0.2)
             if exhaust:
@@ -184,6 +186,8 @@ class C07(PropBase):
             step = {"op": "roundtrip", "t": t, "v": v, "mod": "vw0", "vdepth": d + (1 if kind == "wrap" and shape in ("list", "dict", "tuplevar") else 0)}
             if "stack" in sw and rng.random() < 0.3:
                 step["depth"] = rng.randint(1, 60)
+            if "exhaust_scan" in sw and not exhaust and rng.random() < 0.25:
+                step["scan"] = True  # as above, for the marshal half (incl. the lazy resolution of the cycle proxies)
             if exhaust:
                 step["exhaust"] = True
                 if kind == "self" and rng.random() < 0.5:
